@@ -204,6 +204,15 @@ func discharge(vc *VC, cfg runCfg) []*OblResult {
 			default:
 				r.Status = "undecided"
 				r.Output = truncate(sr.Output, 600)
+				// no model: the solvers cannot answer sat in the presence of quantified hypotheses. Ask again without
+				// them; a model of the relaxed query is only a CANDIDATE counterexample (to be replayed on the real code).
+				if rf, err := writeQuery(filepath.Join(cfg.workDir, mangle(vc.fi.Key)), o.Name+"_relaxed", vc.relaxedQuery(o)); err == nil {
+					rr := solveFile(rf, 5, cfg.seed, 1)
+					if rr.Status == "sat" {
+						r.Model = parseValues(rr.Output, o.Values)
+						r.Output = "candidate model from the query without quantified hypotheses (" + rf + "):\n" + truncate(rr.Output, 1500)
+					}
+				}
 			}
 		}(i, o)
 	}
